@@ -14,7 +14,7 @@ def nontrivial(case, info, qk, row):
 def run(ctx):
     count = 200 if ctx.tier == "quick" else 4000
     cases = answers.load_corpus("C04")
-    cases += answers.gen_cases(ctx, count, (1, 6), (1, 7), [False], ties=0.5)
+    cases += answers.gen_cases(ctx, count, (1, 6), (1, 7), [False], ties=0.5, rekey=0.3)
     if ctx.tier == "thorough":
         ex = answers.exhaustive_cases(ctx, [False])
         ctx.notes.append(f"exhaustive small scope: all one-conditional bases over the 16 truth tables on 2 atoms and all two-conditional bases "
